@@ -46,6 +46,9 @@ class LazyHex:
         return self
 
 
+REAL_HEX = [False]     # obligations whose code parses the hex text again (bytes.fromhex) switch real rendering on
+
+
 def _realize(x):
     try:
         from crosshair.core import realize
@@ -113,6 +116,8 @@ class HB:
         return bytes(list(self.v))
 
     def hex(self):
+        if REAL_HEX[0]:
+            return bytes([_realize(b) for b in self.v]).hex()
         return LazyHex(self.v)
 
     def __ch_deep_realize__(self, memo):
